@@ -408,6 +408,11 @@ impl OsIpcSender {
         let (dedicated_tx, dedicated_rx) = channel()?;
         // Extract FD handle without consuming the Receiver, so the FD doesn't get closed.
         fds.push(dedicated_rx.fd.get());
+        // Our own copy of the receiving end is only needed until the first fragment
+        // (which carries it) has been sent. If we kept it open any longer,
+        // the followup sends could never fail when the receiver goes away mid-message:
+        // they would block forever once the buffer of the dedicated channel is full.
+        let mut dedicated_rx = Some(dedicated_rx);
 
         // Split up the packet into fragments.
         let mut byte_position = 0;
@@ -442,6 +447,10 @@ impl OsIpcSender {
                 }
             }
 
+            if byte_position == 0 {
+                // The first fragment is on its way, along with the dedicated receiver.
+                drop(dedicated_rx.take());
+            }
             byte_position = end_byte_position;
         }
 
